@@ -13,8 +13,28 @@ import (
 )
 
 func init() {
-	generators["C02"] = genC02
-	generators["C14"] = genC14
+	generators["C02"] = func(tier, out string, sum *Summary) {
+		runPrecision(sum, "beyond-float-precision")
+		genC02(tier, out, sum)
+	}
+	generators["C14"] = func(tier, out string, sum *Summary) {
+		runPrecision(sum, "beyond-float-precision")
+		// a binary float next to an integer no float64 holds: the arithmetic is exact whatever carries the operands
+		for _, av := range []any{float64(1), float32(1), json.Number("1"), int64(1), uint8(1), decimal128.New(1, 0)} {
+			for _, bv := range []any{int64(9007199254740993), json.Number("9007199254740993"), uint64(9007199254740993), int(9007199254740993)} {
+				d := map[string]any{"a": av, "b": bv}
+				for _, c := range [][2]string{{"(a + b) == `9007199254740994`", "true"}, {"(b + a) == `9007199254740994`", "true"}, {"(b - a) == `9007199254740992`", "true"}, {"(a - b) == `-9007199254740992`", "true"}, {"(a * b) == b", "true"}, {"(b * a) == `9007199254740993`", "true"},
+					{"(a + b) == `9007199254740992`", "false"}, {"b + a > b", "true"}, {"sum([a, b]) == `9007199254740994`", "true"}, {"max([a, b]) == b", "true"}, {"b // a == b", "true"}, {"b % `2` == a", "true"}} {
+					o := search(c[0], d)
+					sum.count("float-next-to-big-integer/" + o.Kind)
+					if !(o.Kind == "val" && fmt.Sprint(o.Value) == c[1]) {
+						sum.direct("kind-dependence", c[0], d, fmt.Sprintf("a is %T, b is %T: expected %s, got %s", av, bv, c[1], describe(o)))
+					}
+				}
+			}
+		}
+		genC14(tier, out, sum)
+	}
 }
 
 // the specification's signatures: argument types per position ("any", "number", "string", "array", "object",
